@@ -1,6 +1,7 @@
 (* driver for HeapModel (C05, priority queue).
    heap       : one history per line  "<variant> <cmp> <capacity> <op>..."  (variant is ignored by the
-                model: the public wrapper only delegates), ops  e<int> | d | p | l
+                model: the public wrapper only delegates), ops  e<int> | d | p | l, a trailing '~' =
+                not observed after this op (entry "<answer>|-|-")
                 -> one line: per op "<answer>|<len>|<a1,a2,..>" joined by ';' (array = data[1:])
    heap-inv   : "<cmp> <a1,a2,..>"  -> "true"/"false": heap_invb on the dumped array
    heap-spec  : "<cmp> <capacity> <op>=<answer>..." -> "accept" | "reject <k>"  (abstract multiset) *)
@@ -12,7 +13,11 @@ let cmp_of_string = function
   | "asc" -> hcmp_asc | "desc" -> hcmp_desc | "mod3" -> hcmp_mod3
   | s -> failwith ("cmp " ^ s)
 
+let silent s = String.length s > 0 && s.[String.length s - 1] = '~'
+let strip s = if silent s then String.sub s 0 (String.length s - 1) else s
+
 let op_of_string s =
+  let s = strip s in
   match s.[0] with
   | 'e' -> Enqueue (z_of_string (String.sub s 1 (String.length s - 1)))
   | 'd' -> Dequeue
@@ -74,9 +79,12 @@ let replay () =
           if i > 0 then Buffer.add_char buf ';';
           Buffer.add_string buf (show_ans r);
           Buffer.add_char buf '|';
-          Buffer.add_string buf (z_to_string (pq_len p1));
-          Buffer.add_char buf '|';
-          Buffer.add_string buf (show_arr p1.data);
+          if silent o && r <> HPanic then Buffer.add_string buf "-|-"   (* not observed after this op *)
+          else begin
+            Buffer.add_string buf (z_to_string (pq_len p1));
+            Buffer.add_char buf '|';
+            Buffer.add_string buf (show_arr p1.data)
+          end;
           (match r with HPanic | HOutOfFuel -> stop := true | _ -> ())
         end) ops;
       print_endline (Buffer.contents buf)
